@@ -12,6 +12,7 @@ import (
 
 type c07Params struct {
 	Kind      string // target request kind
+	Prop      string // property the scenario is run for ("" = C07); C03 runs the flush-of-flush stages too: a Tflush is a request owed exactly one reply
 	Stage     string // sameseg | separate | afterreply | unknown | executing | twoflush | flushflush | flushflush2 | flushflush3 | sametag
 	FlushMode string // none | cancel | ignore
 	Gated     bool   // target parks in the implementation
@@ -42,6 +43,10 @@ type c07Obs struct {
 }
 
 func c07Scenario(p c07Params) Scenario {
+	prop := p.Prop
+	if prop == "" {
+		prop = "C07"
+	}
 	var o *c07Obs
 	const fTag, fTag2, fTag3 = 101, 102, 103
 	tTag := uint16(100)
@@ -195,14 +200,14 @@ func c07Scenario(p c07Params) Scenario {
 		}
 		s.c.Collect()
 	}
-	check := stdCheck("C07", func(x *vs.Exec) *Viol {
+	check := stdCheck(prop, func(x *vs.Exec) *Viol {
 		s := o.s
 		fr := s.c.Frames[o.setupN:o.mainN]
 		detail := func() any {
 			return map[string]any{"wire": strings.Split(framesString(s.c.Frames[o.setupN:]), "\n"), "fslog": strings.Split(s.fs.logString(), "\n"), "probes": o.probes, "parked": x.Parked}
 		}
 		v := func(sig, msg string) *Viol {
-			return &Viol{Sig: "C07/" + sig, Msg: msg + "\n" + framesString(fr) + "probes: " + strings.Join(o.probes, " | "), Detail: detail()}
+			return &Viol{Sig: prop + "/" + sig, Msg: msg + "\n" + framesString(fr) + "probes: " + strings.Join(o.probes, " | "), Detail: detail()}
 		}
 		if len(s.c.Junk) > 0 {
 			return v("truncated-or-garbled-frame", fmt.Sprintf("the reply stream ends in %d bytes that are not a frame", len(s.c.Junk)))
